@@ -24,9 +24,17 @@ def run(cmd, cwd=None, env=None, timeout=None, inp=None, check=False):
 
 # ---------------------------------------------------------------- working-tree hash
 def repo_files():
-    rc, out = run(["git", "-C", REPO, "ls-files", "-c", "-o", "--exclude-standard", "-z"])
-    files = [f for f in out.split("\0") if f]
-    return sorted(set(files))
+    if os.path.isdir(os.path.join(REPO, ".git")) or os.path.isfile(os.path.join(REPO, ".git")):
+        rc, out = run(["git", "-C", REPO, "ls-files", "-c", "-o", "--exclude-standard", "-z"])
+        files = [f for f in out.split("\0") if f]
+        if rc == 0 and files: return sorted(set(files))
+    files = []
+    for root, ds, fs in os.walk(REPO):
+        ds[:] = [d for d in ds if d not in (".git", ".libs", ".deps", "autom4te.cache")]
+        for f in fs:
+            if f.endswith((".c", ".h", ".asm", ".as", ".cc", ".in", ".am", ".m4", ".ac", ".inc", ".pl", ".sh")) or f in ("configure", "Makefile"):
+                files.append(os.path.relpath(os.path.join(root, f), REPO))
+    return sorted(files)
 
 _tree_hash = None
 def tree_hash():
